@@ -16,6 +16,8 @@ pub enum Fault {
     Eio { at_call: u32, sticky: bool },
     /// the first read that would deliver the byte at `off` (or beyond) fails with EIO (sticky)
     EioAtOffset { off: u64 },
+    /// the first read that would deliver the byte at `off` (or beyond) fails once; the retry succeeds
+    EioOnceAtOffset { off: u64 },
     /// stored data ends at `at` (torn file / crash during the writer's life)
     Eof { at: u64 },
     /// stored byte flipped before the run
@@ -38,6 +40,7 @@ impl Fault {
         match self {
             Fault::Eio { .. } => "eio",
             Fault::EioAtOffset { .. } => "eio_at_offset",
+            Fault::EioOnceAtOffset { .. } => "eio_once_at_offset",
             Fault::Eof { .. } => "eof",
             Fault::Flip { .. } => "flip",
             Fault::SeekFail { .. } => "seek_fail",
@@ -159,6 +162,7 @@ pub struct SimReader {
     seek_calls: u32,
     eio_sticky: bool,
     eio_off: Option<u64>,
+    once_off: Option<u64>,
     pub stats: IoStats,
     pub log: Digest,
     /// step fuel: calls allowed before the medium refuses with an error (runaway guard)
@@ -170,6 +174,7 @@ impl SimReader {
     pub fn new(data: &[u8], plan: &IoPlan) -> SimReader {
         let mut data = data.to_vec();
         let mut eio_off = None;
+        let mut once_off = None;
         let mut fired = vec![];
         for f in &plan.faults {
             match f {
@@ -186,6 +191,7 @@ impl SimReader {
                     }
                 }
                 Fault::EioAtOffset { off } => eio_off = Some(eio_off.map_or(*off, |o: u64| o.min(*off))),
+                Fault::EioOnceAtOffset { off } => once_off = Some(*off),
                 _ => {}
             }
         }
@@ -200,6 +206,7 @@ impl SimReader {
             seek_calls: 0,
             eio_sticky: false,
             eio_off,
+            once_off,
             stats: IoStats { fired, ..Default::default() },
             log: Digest::new(),
             fuel,
@@ -268,6 +275,18 @@ impl Read for SimReader {
             }
             if k < (buf.len() as u64).min(avail) {
                 self.stats.shorts += 1;
+            }
+            if let Some(off) = self.once_off {
+                if self.pos + k > off {
+                    if self.pos >= off {
+                        self.once_off = None;
+                        self.stats.fired.push("eio");
+                        self.stats.fired.push("eio_once_at_offset");
+                        self.log.u64(0xE11);
+                        return Err(self.plan.error());
+                    }
+                    k = off - self.pos;
+                }
             }
             if let Some(off) = self.eio_off {
                 if self.pos + k > off {
@@ -548,6 +567,7 @@ pub fn shrink_io(p: &IoPlan) -> Vec<IoPlan> {
             Fault::Eof { at } if *at > 0 => vec![Fault::Eof { at: 0 }, Fault::Eof { at: at / 2 }, Fault::Eof { at: at - 1 }],
             Fault::Flip { off, bit } if *off > 0 => vec![Fault::Flip { off: off / 2, bit: *bit }, Fault::Flip { off: off - 1, bit: *bit }],
             Fault::EioAtOffset { off } if *off > 0 => vec![Fault::EioAtOffset { off: 0 }, Fault::EioAtOffset { off: off / 2 }],
+            Fault::EioOnceAtOffset { off } if *off > 0 => vec![Fault::EioOnceAtOffset { off: off / 2 }, Fault::EioOnceAtOffset { off: off - 1 }],
             Fault::Eio { at_call, sticky } if *at_call > 0 => vec![Fault::Eio { at_call: 0, sticky: *sticky }, Fault::Eio { at_call: at_call / 2, sticky: *sticky }],
             Fault::WriteEio { at_call, sticky } if *at_call > 0 => vec![Fault::WriteEio { at_call: 0, sticky: *sticky }, Fault::WriteEio { at_call: at_call / 2, sticky: *sticky }],
             Fault::WriteZero { at_call } if *at_call > 0 => vec![Fault::WriteZero { at_call: 0 }],
